@@ -5,6 +5,7 @@ CONSTANTS
   NLs = {0, 1}
   Poses = {0, 1}
   Dump = TRUE
+  LineNums = TRUE
 INVARIANT Agree
 INVARIANT ExactlyOnce
 INVARIANT MarkersAligned
